@@ -165,13 +165,22 @@ impl Prop for C02 {
         let base = if long || rng.chance(1, 4) {
             0
         } else {
-            let edges = [127u64, 128, 16511, 16512, 2113663, 2113664, 209_999, 1_000_000, 3_999_990];
-            let b = *rng.pick(&edges);
+            // VarInt width boundaries of the height field: 1→2 bytes at 128, 2→3 at 16512, 3→4 at 2113664, 4→5 at 270549120
+            let edges = [127u64, 128, 16511, 16512, 2113663, 2113664, 209_999, 1_000_000, 3_999_990, 16_777_215, 270_549_119, 270_549_120];
+            let mut b = *rng.pick(&edges);
+            if cb == "simplestats" && b > 13_000_000 {
+                b = 3_999_990; // the subsidy shift is defined for 64 halvings only (C15 excludes higher heights)
+            }
             b.saturating_sub(rng.below(n as u64 + 1))
         };
         scn.base_height = base;
         scn.chain = marker_chain(base, n, rng);
         scn.layouts = vec![random_layout(n, 4, true, rng)];
+        // records the loader ignores (header-only at/beyond the tip, earlier-sorting stale blocks) must not move the range
+        if n >= 2 && n <= 60 && rng.chance(1, 2) {
+            super::c04::add_ignored_competitors(&mut scn, rng);
+            h.stats.probe("index_with_ignored_competitors");
+        }
         scn.index = index_opts(rng);
         let t = base + n as u64 - 1;
         let mut r = RunSpec::new(cb);
